@@ -154,19 +154,27 @@ func genC15(t *rapid.T) c15Case {
 	used := map[string]bool{}
 	permuteTree(t, yb, true, used)
 	switch rapid.IntRange(0, 3).Draw(t, "prefixRewrite") {
-	case 1: // consistent renaming ex -> zz
-		renamePrefix(yb, "ex", "zz", func() bool { return true })
+	case 1: // consistent renaming ex -> another name, possibly one that shadows a built-in prefix the profile does not otherwise use
+		to := pick(t, []string{"zz", "zz", "my-ns", "doc", "core", "data", "meta", "api", "security", "rdfs"}, "renameTo")
+		renamePrefix(yb, "ex", to, func() bool { return true })
 		pf := yb.Get("prefixes")
 		for i, k := range pf.Keys {
 			if k == "ex" {
-				pf.Keys[i] = "zz"
+				pf.Keys[i] = to
 			}
 		}
 		used["prefix-renamed"] = true
+		if to != "zz" && to != "my-ns" {
+			used["prefix-shadows-builtin"] = true
+		}
 	case 2: // second prefix bound to the same namespace, used interchangeably
-		renamePrefix(yb, "ex", "alt", func() bool { return rapid.Bool().Draw(t, "useAlias") })
-		yb.Get("prefixes").Set("alt", m.YStr(m.NS))
+		alias := pick(t, []string{"alt", "alt", "doc", "core", "catalog"}, "aliasName")
+		renamePrefix(yb, "ex", alias, func() bool { return rapid.Bool().Draw(t, "useAlias") })
+		yb.Get("prefixes").Set(alias, m.YStr(m.NS))
 		used["prefix-alias"] = true
+		if alias != "alt" {
+			used["prefix-shadows-builtin"] = true
+		}
 	case 3: // built-in pair shapes / raml-shapes
 		renamePrefix(yb, "shapes", "raml-shapes", func() bool { return rapid.Bool().Draw(t, "useRaml") })
 		used["builtin-alias"] = true
